@@ -723,3 +723,136 @@ Proof.
   inversion H; subst. apply orb_false_elim in E. destruct E as [E1 _].
   unfold rcrel. cbn. apply crel_abs_eq; [apply abs_ext; reflexivity|cbn; lia].
 Qed.
+
+(* ---- RawNode entry points, storage writes, traces ---- *)
+Lemma on_persist_ready_crel rw n k n' :
+  rn_on_persist_ready n k = Ok n' -> persist_pre n k -> NLI rw n -> crel (nlog n) (nlog n').
+Proof.
+  unfold rn_on_persist_ready, persist_pre, nlog. intros H P HI.
+  destruct (fold_records (rn_records n) k 0 0 0) as [[[recs i] t] si]. cbn [snd] in P.
+  apply bind_ok in H. destruct H as (ra & Ha & H). apply bind_ok in H. destruct H as (rb & Hb & H).
+  inversion H; subst n'. cbn.
+  assert (H1 : LI rw ra /\ rcrel (rn_raft n) ra).
+  { destruct (negb (si =? 0)); [|inversion Ha; subst ra; split; [exact HI|apply rcrel_eq; reflexivity]].
+    split; [exact (proj1 (on_persist_snap_pres rw _ _ _ Ha HI P))|exact (on_persist_snap_rcrel rw _ _ _ Ha HI P)]. }
+  destruct H1 as [H1 C1].
+  destruct (negb (i =? 0)); [|inversion Hb; subst rb; exact C1].
+  eapply crel_trans; [exact C1|exact (on_persist_entries_rcrel rw _ _ _ _ Hb H1)].
+Qed.
+
+Lemma commit_ready_crel rw n rd n' :
+  commit_ready n rd = Ok n' -> commit_pre n -> NLI rw n -> crel (nlog n) (nlog n').
+Proof.
+  intros H P HI. destruct (commit_ready_pres rw _ _ _ H P HI) as (_ & B & _ & (C1 & _) & _).
+  apply crel_abs_eq; [exact B|lia].
+Qed.
+
+Lemma advance_append_crel rw n rd n' lr :
+  rn_advance_append n rd = Ok (n', lr) -> advance_pre n -> NLI rw n -> crel (nlog n) (nlog n').
+Proof.
+  intros H [P1 P2] HI.
+  destruct (rn_advance_append_inv _ _ _ _ H) as (n1 & n2 & n3 & lr3 & H1 & H2 & H3 & _ & _ & _ & _ & Hn' & _).
+  destruct (commit_ready_pres rw _ _ _ H1 P1 HI) as (A1 & _ & C1 & (_ & D2 & _) & E1 & F1).
+  assert (P2' : persist_pre n1 (rn_max_number n1)).
+  { unfold persist_pre in *. rewrite E1, F1, D2, C1. exact P2. }
+  assert (E : nlog n' = nlog n2) by (subst n'; exact (gen_light_ready_log _ _ _ H3)).
+  rewrite E. eapply crel_trans; [eapply commit_ready_crel; eassumption|eapply on_persist_ready_crel; eassumption].
+Qed.
+
+Lemma store_write_base rw l st' :
+  store_write l st' -> RepInv rw l -> ll_base (abs l) <= ll_base (abs (set_store l st')).
+Proof.
+  intros W HI. destruct W.
+  - rewrite (proj2 (write_meta_pres rw l m' H H0 H1 H2 HI)). lia.
+  - destruct (write_entries_pres rw l st' HI H H0) as (_ & -> & _). lia.
+  - destruct (write_snapshot_pres rw l s st' HI H H0) as (_ & -> & _). lia.
+  - destruct (write_entries_after_snapshot_pres rw l s st' HI H H0 H1) as (_ & -> & _). lia.
+  - assert (HF : RepInv false l) by (apply RepInv_close_window; [apply (RepInv_true rw); exact HI|exact H0]).
+    destruct (N.le_gt_cases ci (first_of (store l))) as [Hle|Hgt].
+    + rewrite (store_compact_noop false l ci HF Hle) in H4. inversion H4; subst st'.
+      replace (set_store l (store l)) with l by (destruct l; reflexivity). lia.
+    + destruct (store_compact_ok l ci HF H Hgt H1 H2 H3) as (st2 & Hc2 & _ & Habs & _).
+      rewrite H4 in Hc2. inversion Hc2; subst st2. rewrite Habs. unfold abs. rewrite H. cbn [ll_base]. lia.
+Qed.
+
+(* C05 (2), per call of the RawNode API (and per storage write) *)
+Theorem exec_crel rw n o n' ot :
+  exec n o = Ok (n', ot) -> op_wf n o -> NLI rw n -> crel (nlog n) (nlog n').
+Proof.
+  intros H W HI. unfold NLI in HI.
+  assert (Hstep : forall m x, step (rn_raft n) m = Ok x -> msg_wf (nlast n) m ->
+            crel (nlog n) (r_log (fst x))).
+  { intros m [r1 c1] Hs Wm. cbn [fst]. exact (step_rcrel rw _ _ _ _ Hs Wm HI). }
+  assert (Hplain : forall m x, step (rn_raft n) m = Ok x ->
+            elect_type (m_type m) = false -> m_type m <> MsgPropose -> m_type m <> MsgAppend ->
+            m_type m <> MsgSnapshot -> crel (nlog n) (r_log (fst x))).
+  { intros m x Hs A B C0 D. eapply Hstep; [exact Hs|apply msg_wf_plain; assumption]. }
+  destruct o; cbn [exec op_wf] in H, W; unfold quiet, quiet1 in H;
+    try (inv_bind H; inversion H; subst; clear H).
+  - unfold rn_step, lift2 in Hx. destruct (is_local_msg (m_type m)); [inversion Hx; subst; apply crel_refl|].
+    match type of Hx with (if ?c then _ else _) = _ => destruct c end; [|inversion Hx; subst; apply crel_refl].
+    inv_bind Hx. inversion Hx; subst. cbn. eapply Hstep; eassumption.
+  - unfold rn_tick in Hx. inv_bind Hx. destruct x0 as [r1 b1]. inversion Hx; subst. cbn.
+    exact (tick_rcrel rw _ _ _ Hx0 HI W).
+  - unfold rn_campaign, lift2 in Hx. inv_bind Hx. inversion Hx; subst. cbn.
+    eapply Hstep; [exact Hx0|]. unfold msg_wf. cbn. splits; try (intros E; discriminate). intros _. exact W.
+  - unfold rn_propose, lift2 in Hx. inv_bind Hx. inversion Hx; subst. cbn.
+    eapply Hstep; [exact Hx0|]. unfold msg_wf. cbn. splits; try (intros E; discriminate). intros _. exact W.
+  - unfold rn_propose_conf_change, lift2 in Hx. inv_bind Hx. inversion Hx; subst. cbn.
+    eapply Hstep; [exact Hx0|]. unfold msg_wf. cbn. splits; try (intros E; discriminate). intros _. exact W.
+  - unfold rn_apply_conf_change in Hx. inv_bind Hx. destruct x0 as [r1 o1]. inversion Hx; subst. cbn.
+    exact (raft_apply_conf_change_rcrel rw _ _ _ _ Hx0 HI).
+  - rewrite (rn_ping_log _ _ Hx). apply crel_refl.
+  - destruct x as [n1 rd]. cbn [fst]. rewrite (rn_ready_log _ _ _ Hx). apply crel_refl.
+  - (* advance *)
+    destruct x as [n1 lr]. cbn [fst]. destruct W as [W1 W2].
+    unfold rn_advance in Hx. inv_bind Hx. destruct x as [n2 lr2]. cbn [fst snd] in Hx.
+    inv_bind Hx. inversion Hx; subst.
+    destruct (rn_advance_append_pres rw _ _ _ _ Hx0 W1 HI) as (A1 & B1 & _).
+    eapply crel_trans; [eapply advance_append_crel; eassumption|].
+    unfold rn_advance_apply_to, lift in Hx1. inv_bind Hx1. inversion Hx1; subst. unfold nlog. cbn.
+    refine (proj1 (commit_apply_rel rw _ _ _ Hx2 A1 _)). intros _.
+    unfold nroom, room in *. unfold NLI, LI in A1. unfold nlog in B1.
+    rewrite (abs_last rw _ A1), B1, <- (abs_last rw _ HI). exact W2.
+  - destruct x as [n1 lr]. cbn [fst]. eapply advance_append_crel; eassumption.
+  - unfold rn_advance_append_async in Hx. eapply commit_ready_crel; eassumption.
+  - eapply on_persist_ready_crel; eassumption.
+  - unfold rn_advance_apply, rn_advance_apply_to, lift in Hx. inv_bind Hx. inversion Hx; subst. unfold nlog. cbn.
+    exact (proj1 (commit_apply_rel rw _ _ _ Hx0 HI W)).
+  - unfold rn_advance_apply_to, lift in Hx. inv_bind Hx. inversion Hx; subst. unfold nlog. cbn.
+    exact (proj1 (commit_apply_rel rw _ _ _ Hx0 HI W)).
+  - unfold rn_report_unreachable in Hx. inv_bind Hx. inversion Hx; subst. cbn.
+    eapply Hplain; [exact Hx0| | | |]; cbn; (reflexivity || discriminate).
+  - unfold rn_report_snapshot in Hx. inv_bind Hx. inversion Hx; subst. cbn.
+    eapply Hplain; [exact Hx0| | | |]; cbn; (reflexivity || discriminate).
+  - destruct x as [n1 c]. cbn [fst]. rewrite (rn_request_snapshot_log _ _ _ Hx). apply crel_refl.
+  - unfold rn_transfer_leader in Hx. inv_bind Hx. inversion Hx; subst. cbn.
+    eapply Hplain; [exact Hx0| | | |]; cbn; (reflexivity || discriminate).
+  - unfold rn_read_index in Hx. inv_bind Hx. inversion Hx; subst. cbn.
+    eapply Hplain; [exact Hx0| | | |]; cbn; (reflexivity || discriminate).
+  - (* storage write *)
+    inversion H; subst. change (crel (nlog n) (set_store (nlog n) m)).
+    destruct (store_write_pres rw _ _ W HI) as (_ & _ & P).
+    unfold crel. cbn [set_store committed]. splits; [lia|exact (store_write_base rw _ _ W HI)|exact P].
+Qed.
+
+Theorem wrun_crel rw n n' : wrun n n' -> NLI rw n -> crel (nlog n) (nlog n').
+Proof.
+  intros R. induction R as [|n o n1 ot n' W E R IH]; intros HI; [apply crel_refl|].
+  eapply crel_trans; [eapply exec_crel; eassumption|]. apply IH. eapply exec_pres; eassumption.
+Qed.
+
+(* the trace form: an entry once at or below the commit index stays what it is for as long
+   as the log retains its index, and the commit index never goes back *)
+Theorem committed_entries_stable c st sa dr n0 n n' :
+  rn_new c st sa dr = Ok (inr n0) -> SInv st -> trig_log st = false ->
+  wrun n0 n -> wrun n n' ->
+  committed (nlog n) <= committed (nlog n')
+  /\ forall i e, i <= committed (nlog n) -> ll_get (abs (nlog n)) i = Some e ->
+       ll_base (abs (nlog n')) < i -> ll_get (abs (nlog n')) i = Some e.
+Proof.
+  intros H Hs Hq R1 R2. destruct (rn_new_pres _ _ _ _ _ H Hs Hq) as (A & _).
+  pose proof (wrun_pres true _ _ R1 A) as HI.
+  destruct (wrun_crel true _ _ R2 HI) as (C1 & _ & C3). split; [exact C1|].
+  intros i e Hi Hg Hb. rewrite (C3 i Hi Hb). exact Hg.
+Qed.
